@@ -228,19 +228,33 @@ var pfHeaderNames = []string{"Region", "X-Tenant", "n", "a.b", "!#$%&'*+-.^_`|~"
 var pfBadHeaderNames = []string{"My Region", "Région", "a:b", "", "X-(R)", "R=1", "a\tb", "é"}
 var pfPropNames = []string{"region", "tenant", "n", "flag", "q", "filter", "opts", "inner", "deep", "x y", "é", "a.b", "Region"}
 
+// pfGen is the seeded generator. epoch selects the generator version: 1 = the original shapes (schemas of depth ≤ 3,
+// bodies with a declared length), kept so that "@kind:seed:index" ids in corpus/replay files regenerate the same
+// case; 2 adds deep and wide schemas and the body-delivery modes. Ids of epoch ≥ 2 are "@kind:seed:index:epoch".
 type pfGen struct {
-	rng *rand.Rand
+	rng   *rand.Rand
+	epoch int
 }
+
+const pfEpoch = 2
 
 func (g *pfGen) pick(ss []string) string { return ss[g.rng.Intn(len(ss))] }
 func (g *pfGen) chance(pct int) bool     { return g.rng.Intn(100) < pct }
 
-// schema generates a property tree (depth ≤ 3). valid: annotations pass validateParamHeaderAnnotations.
+// schema generates a property tree. valid: annotations pass validateParamHeaderAnnotations.
+// Shapes: bushy trees of depth ≤ 3 (epoch 1: only these), and - epoch 2 - deep trees: a spine of nested objects
+// down to a leaf level 3..9 names below `arguments` with 1-4 siblings per level, annotations at any level
+// (the usual "filter.scope.target.{region,tenant}" shape is one of them).
 func (g *pfGen) schema(valid bool) []*pfProp {
 	used := map[string]bool{}
 	var names []string
 	for _, h := range g.rng.Perm(len(pfHeaderNames)) {
 		names = append(names, pfHeaderNames[h])
+	}
+	maxObj, deep := 2, false
+	if g.epoch >= 2 && g.chance(45) {
+		deep = true
+		maxObj = 2 + g.rng.Intn(7) // objects at depths 0..maxObj-1: leaf paths of up to maxObj+1 names (3..9)
 	}
 	var build func(depth int) []*pfProp
 	build = func(depth int) []*pfProp {
@@ -248,16 +262,26 @@ func (g *pfGen) schema(valid bool) []*pfProp {
 		if depth > 0 && g.chance(30) {
 			n = 1
 		}
+		if deep && depth >= 2 && g.chance(60) {
+			n = 2 + g.rng.Intn(3) // siblings deep down
+		}
+		spine := -1
+		if deep && depth < maxObj && g.chance(90) {
+			spine = g.rng.Intn(n) // this sibling continues the spine
+		}
 		var out []*pfProp
 		seen := map[string]bool{}
 		for i := 0; i < n; i++ {
 			nm := g.pick(pfPropNames)
 			if seen[nm] {
+				if i == spine {
+					spine++
+				}
 				continue
 			}
 			seen[nm] = true
 			p := &pfProp{name: nm, xh: '-', hasTy: true}
-			if depth < 2 && g.chance(30) {
+			if i == spine || (depth < maxObj && g.chance(30) && !(deep && depth >= 3 && g.chance(70))) {
 				p.ty = "object"
 				p.children = build(depth + 1)
 				if !valid && g.chance(10) {
@@ -395,6 +419,9 @@ func (g *pfGen) args(ps []*pfProp, validOnly bool) *pfJ {
 	o := &pfJ{kind: 'o'}
 	for _, p := range ps {
 		r := g.rng.Intn(100)
+		if g.epoch >= 2 && p.ty == "object" && len(p.children) > 0 && r < 23 && g.chance(75) {
+			r = 50 // nested objects are mostly present, so that deep members are reached
+		}
 		switch {
 		case r < 15:
 			continue // absent
@@ -705,7 +732,7 @@ func pfHelperCase(g *pfGen, kind string) (op, obs string, tags []string) {
 			sort.Strings(items)
 			return strings.TrimSpace(v + " " + strings.Join(items, " "))
 		})
-		tags = []string{"annot-" + obs[:2]}
+		tags = []string{"annot-" + obs[:2], pfDepthTag(ps)}
 	case "gen", "vph":
 		ps := g.validSchema()
 		tool := &Tool{Name: "t", InputSchema: json.RawMessage(pfSchemaJSON(ps))}
@@ -724,7 +751,7 @@ func pfHelperCase(g *pfGen, kind string) (op, obs string, tags []string) {
 				}
 				return pfParamHdrTok(hh)
 			})
-			tags = []string{"gen", fmt.Sprintf("gen-n%d", strings.Count(obs, "="))}
+			tags = []string{"gen", fmt.Sprintf("gen-n%d", strings.Count(obs, "=")), pfDepthTag(ps)}
 		} else {
 			h := http.Header{}
 			for k, v := range generateParamHeaders(tool, params) {
@@ -742,10 +769,35 @@ func pfHelperCase(g *pfGen, kind string) (op, obs string, tags []string) {
 				}
 				return "err"
 			})
-			tags = []string{"vph-" + strings.ReplaceAll(obs, " ", "-")}
+			tags = []string{"vph-" + strings.ReplaceAll(obs, " ", "-"), pfDepthTag(ps)}
 		}
 	}
 	return
+}
+
+// pfDepthTag: the length of the longest property-name path that carries an annotation, and whether some annotated
+// property at that level has a sibling ("w": the shape in which sibling paths could alias).
+func pfDepthTag(ps []*pfProp) string {
+	best, wide := 0, false
+	var walk func(ps []*pfProp, d int)
+	walk = func(ps []*pfProp, d int) {
+		for _, p := range ps {
+			if p.xh != '-' {
+				if d > best {
+					best, wide = d, false
+				}
+				if d == best && len(ps) > 1 {
+					wide = true
+				}
+			}
+			walk(p.children, d+1)
+		}
+	}
+	walk(ps, 1)
+	if wide {
+		return fmt.Sprintf("ann-depth%dw", best)
+	}
+	return fmt.Sprintf("ann-depth%d", best)
 }
 
 func (g *pfGen) validSchema() []*pfProp {
@@ -841,8 +893,13 @@ type pfCounters struct {
 	mw, h atomic.Int64
 }
 
-func pfServer(cnt *pfCounters, toolName string, schema []*pfProp) *Server {
-	s := NewServer(&Implementation{Name: "verif", Version: "1"}, nil)
+func pfServer(cnt *pfCounters, toolName string, schema []*pfProp, noSID bool) *Server {
+	var sopts *ServerOptions
+	if noSID {
+		// a server that issues no session ids: a stateful handler serves every POST on an ephemeral session
+		sopts = &ServerOptions{GetSessionID: func() string { return "" }}
+	}
+	s := NewServer(&Implementation{Name: "verif", Version: "1"}, sopts)
 	s.AddReceivingMiddleware(func(next MethodHandler) MethodHandler {
 		return func(ctx context.Context, method string, req Request) (Result, error) {
 			cnt.mw.Add(1)
@@ -948,6 +1005,14 @@ type pfHTTPCase struct {
 	wantsKnown bool
 	sizeClass  string
 	muts       []string
+	// body delivery: "cl" declared length (Content-Length), "ch" no declared length (chunked upload), delivered at once,
+	// "dr" no declared length, delivered in small pieces, "ab" the upload breaks off after abortAt bytes
+	// (with or without a declared length)
+	bodyMode  string
+	abortAt   int
+	abortDecl bool
+	noSID     bool // the server's GetSessionID returns "" (stateful handler: ephemeral sessions)
+	wire      bool // send the request over a real loopback socket through net/http's server instead of calling ServeHTTP
 }
 
 var pfOldVersions = []string{protocolVersion20251125, protocolVersion20250618, protocolVersion20250326, protocolVersion20241105}
@@ -1098,9 +1163,19 @@ func (g *pfGen) httpCase() *pfHTTPCase {
 	// perturbations
 	nmut := []int{0, 0, 1, 1, 1, 2, 2, 3}[g.rng.Intn(8)]
 	for i := 0; i < nmut; i++ {
-		mk := g.rng.Intn(19)
-		c.muts = append(c.muts, "mut-"+[]string{"host", "listener", "protection-off", "origin", "method", "ctype", "accept", "version", "session", "last-event-id", "size", "body", "meta", "mcp-method", "mcp-name", "param-extra", "json-response", "std-headers-flip", "bad-version"}[mk])
+		nmk := 19
+		if g.epoch >= 2 {
+			nmk = 21
+		}
+		mk := g.rng.Intn(nmk)
+		c.muts = append(c.muts, "mut-"+[]string{"host", "listener", "protection-off", "origin", "method", "ctype", "accept", "version", "session", "last-event-id", "size", "body", "meta", "mcp-method", "mcp-name", "param-extra", "json-response", "std-headers-flip", "bad-version", "size-undeclared", "delivery"}[mk])
 		switch mk {
+		case 19:
+			// a body around the limit uploaded without a declared length
+			c.limit = []int64{-1, 1, -2, -2, -4, -4, -5}[g.rng.Intn(7)]
+			c.bodyMode = g.pick([]string{"ch", "dr"})
+		case 20:
+			c.bodyMode = g.pick([]string{"ch", "dr", "ab", "ab"})
 		case 0:
 			c.host = g.pick(pfHosts)
 		case 1:
@@ -1276,7 +1351,98 @@ func (g *pfGen) httpCase() *pfHTTPCase {
 		body = strings.Repeat(" ", int(c.limit)-len(body)) + body
 	}
 	c.body = []byte(body)
+	if g.epoch >= 2 {
+		if c.bodyMode == "" {
+			switch r := g.rng.Intn(100); {
+			case r < 70:
+				c.bodyMode = "cl"
+			case r < 82:
+				c.bodyMode = "ch"
+			case r < 94:
+				c.bodyMode = "dr"
+			default:
+				c.bodyMode = "ab"
+			}
+		}
+		if c.bodyMode == "ab" {
+			if len(c.body) == 0 {
+				c.bodyMode = "ch"
+			} else {
+				c.abortAt = g.rng.Intn(len(c.body))
+				if g.chance(30) {
+					c.abortAt = len(c.body) - 1
+				}
+				if (c.sizeClass == "size-default" || c.sizeClass == "size-unlimited") && g.chance(40) {
+					// the upload breaks off inside trailing white space: what did arrive is a complete JSON text
+					n := len(c.body)
+					c.body = append(c.body, []byte(strings.Repeat(" ", 1+g.rng.Intn(4))+"\n")...)
+					c.abortAt = n + g.rng.Intn(len(c.body)-n)
+				}
+				c.abortDecl = g.chance(50)
+			}
+		}
+		c.wire = c.kind != "sse" && c.localAddr == "127.0.0.1:8080" && c.bodyMode != "ab" && g.chance(20)
+		c.noSID = c.kind == "sf" && g.chance(15)
+	} else {
+		c.bodyMode = "cl"
+	}
 	return c
+}
+
+// One real net/http server on a loopback socket for all wire-mode cases (a server per case would wait out net/http's
+// 500 ms RST-avoidance delay on every refused upload when it is closed). Cases register their handler under a
+// unique path; every request uses a fresh connection.
+var (
+	pfWireOnce     sync.Once
+	pfWireSrv      *httptest.Server
+	pfWireHandlers sync.Map
+	pfWireSeq      atomic.Int64
+	pfWireClient   = &http.Client{Timeout: 10 * time.Second, Transport: &http.Transport{DisableKeepAlives: true}}
+)
+
+func pfWireRegister(h http.Handler) (url string, unregister func()) {
+	pfWireOnce.Do(func() {
+		pfWireSrv = httptest.NewServer(http.HandlerFunc(func(w http.ResponseWriter, r *http.Request) {
+			if h, ok := pfWireHandlers.Load(r.URL.Path); ok {
+				h.(http.Handler).ServeHTTP(w, r)
+				return
+			}
+			http.NotFound(w, r)
+		}))
+	})
+	path := fmt.Sprintf("/c%d", pfWireSeq.Add(1))
+	pfWireHandlers.Store(path, h)
+	return pfWireSrv.URL + path, func() { pfWireHandlers.Delete(path) }
+}
+
+// pfBodyReader delivers a request body without revealing its length (so that no Content-Length is declared), in
+// pieces of the given sizes (nil: at once), optionally ending with an error instead of EOF.
+type pfBodyReader struct {
+	data   []byte
+	pieces []int
+	fail   bool
+}
+
+func (r *pfBodyReader) Read(p []byte) (int, error) {
+	if len(r.data) == 0 {
+		if r.fail {
+			return 0, io.ErrUnexpectedEOF
+		}
+		return 0, io.EOF
+	}
+	n := len(r.data)
+	if len(r.pieces) > 0 {
+		if r.pieces[0] < n {
+			n = r.pieces[0]
+		}
+		r.pieces = append(r.pieces[1:], r.pieces[0])
+	}
+	if n > len(p) {
+		n = len(p)
+	}
+	copy(p, r.data[:n])
+	r.data = r.data[n:]
+	return n, nil
 }
 
 // pfDescribeMsg renders the abstract message the gates see, from what the real parser produced.
@@ -1372,7 +1538,7 @@ func pfPropsFromJSON(data json.RawMessage) []*pfProp {
 // run executes the case against the real handler and returns (op tokens, observation, tags).
 func (c *pfHTTPCase) run() (op, obs string, tags []string) {
 	cnt := &pfCounters{}
-	srv := pfServer(cnt, c.toolName, c.schema)
+	srv := pfServer(cnt, c.toolName, c.schema, c.noSID)
 	var handler http.Handler
 	var sh *StreamableHTTPHandler
 	var cop *http.CrossOriginProtection
@@ -1482,127 +1648,203 @@ func (c *pfHTTPCase) run() (op, obs string, tags []string) {
 	if c.kind == "sse" && sessionID != "" {
 		url += "?sessionid=" + sessionID
 	}
-	var bodyR io.Reader = bytes.NewReader(c.body)
-	req := httptest.NewRequest(c.method, url, bodyR)
-	ctx := baseCtx
-	if c.method == "GET" {
-		cctx, cancel := context.WithCancel(ctx)
-		cancel() // a GET that passes the gates hangs until the client goes away: it is gone already
-		ctx = cctx
+	delivered := c.body
+	readFails := false
+	dribble := func() []int {
+		// deterministic piece sizes derived from the body (no generator state is consumed at run time)
+		return []int{1 + len(c.body)%7, 1 + len(c.body)%3, 16, 1}
 	}
-	req = req.WithContext(ctx)
-	req.Host = c.host
-	if c.hasCT {
-		req.Header["Content-Type"] = []string{c.ctype}
+	newBody := func() io.Reader {
+		switch c.bodyMode {
+		case "ch":
+			return &pfBodyReader{data: c.body}
+		case "dr":
+			return &pfBodyReader{data: c.body, pieces: dribble()}
+		case "ab":
+			return &pfBodyReader{data: c.body[:c.abortAt], pieces: dribble(), fail: true}
+		}
+		return bytes.NewReader(c.body)
 	}
-	if c.accept != nil {
-		req.Header["Accept"] = c.accept
-	}
-	if c.version != "" {
-		req.Header[http.CanonicalHeaderKey(protocolVersionHeader)] = []string{c.version}
-	}
-	if c.kind != "sse" && sessionID != "" {
-		req.Header[http.CanonicalHeaderKey(sessionIDHeader)] = []string{sessionID}
+	if c.bodyMode == "ab" {
+		delivered, readFails = c.body[:c.abortAt], true
 	}
 	if c.method != "POST" {
 		c.lastEvent = false // resumption (GET + Last-Event-ID) belongs to C08
 	}
-	if c.lastEvent {
-		req.Header[http.CanonicalHeaderKey(lastEventIDHeader)] = []string{"abc_1"}
-	}
-	if c.origin != "" {
-		req.Header["Origin"] = []string{c.origin}
-	}
-	if c.secFetch != "" {
-		req.Header["Sec-Fetch-Site"] = []string{c.secFetch}
-	}
-	if c.mcpMethod != nil {
-		req.Header[http.CanonicalHeaderKey(methodHeader)] = []string{*c.mcpMethod}
-	}
-	if c.mcpName != nil {
-		req.Header[http.CanonicalHeaderKey(nameHeader)] = []string{*c.mcpName}
-	}
-	for k, v := range c.paramHdr {
-		req.Header[k] = v
+	setHeaders := func(req *http.Request) {
+		req.Host = c.host
+		if c.hasCT {
+			req.Header["Content-Type"] = []string{c.ctype}
+		}
+		if c.accept != nil {
+			req.Header["Accept"] = c.accept
+		}
+		if c.version != "" {
+			req.Header[http.CanonicalHeaderKey(protocolVersionHeader)] = []string{c.version}
+		}
+		if c.kind != "sse" && sessionID != "" {
+			req.Header[http.CanonicalHeaderKey(sessionIDHeader)] = []string{sessionID}
+		}
+		if c.lastEvent {
+			req.Header[http.CanonicalHeaderKey(lastEventIDHeader)] = []string{"abc_1"}
+		}
+		if c.origin != "" {
+			req.Header["Origin"] = []string{c.origin}
+		}
+		if c.secFetch != "" {
+			req.Header["Sec-Fetch-Site"] = []string{c.secFetch}
+		}
+		if c.mcpMethod != nil {
+			req.Header[http.CanonicalHeaderKey(methodHeader)] = []string{*c.mcpMethod}
+		}
+		if c.mcpName != nil {
+			req.Header[http.CanonicalHeaderKey(nameHeader)] = []string{*c.mcpName}
+		}
+		for k, v := range c.paramHdr {
+			req.Header[k] = v
+		}
 	}
 
-	// ---- the abstract request: opaque values are what the real functions return
-	listenerLoop, hostLoop := false, util.IsLoopback(c.host)
-	if c.localAddr != "" {
-		listenerLoop = util.IsLoopback(c.localAddr)
-	}
-	originRejects := false
-	if cop != nil {
-		originRejects = cop.Check(req) != nil
-	}
-	var media string
-	if c.kind == "sse" {
-		media = baseMediaType(req.Header.Get("Content-Type")) // SSEHandler calls mime.ParseMediaType directly: same function
-	} else {
-		media = baseMediaType(req.Header.Get("Content-Type"))
-	}
-	meth := map[string]string{"GET": "G", "POST": "P", "DELETE": "D"}[c.method]
-	if meth == "" {
-		meth = "O"
-	}
-	var bodyTok string
-	infos := srv.receivingMethodInfos()
-	if c.kind == "sse" {
-		infos = serverMethodInfos
-		if msg, err := jsonrpc2.DecodeMessage(c.body); err != nil {
-			bodyTok = "bM"
-		} else {
-			bodyTok = "bS " + pfDescribeMsg(msg, infos, srv)
+	// ---- the abstract request: computed from the *http.Request the handler receives (in wire mode: the one net/http's
+	// server built from the bytes on the socket); opaque values are what the real functions return
+	var bodyTok, paramTok string
+	abstract := func(req *http.Request) string {
+		listenerLoop, hasLocal := false, false
+		if la, ok := req.Context().Value(http.LocalAddrContextKey).(net.Addr); ok && la != nil {
+			hasLocal = true
+			listenerLoop = util.IsLoopback(la.String())
 		}
-	} else {
-		msgs, isBatch, err := readBatch(c.body)
-		switch {
-		case err != nil:
-			bodyTok = "bM"
-		default:
-			var parts []string
-			for _, m := range msgs {
-				parts = append(parts, pfDescribeMsg(m, infos, srv))
-			}
-			if isBatch {
-				bodyTok = "bB " + strings.Join(parts, " ")
+		hostLoop := util.IsLoopback(req.Host)
+		originRejects := false
+		if cop != nil {
+			originRejects = cop.Check(req) != nil
+		}
+		media := baseMediaType(req.Header.Get("Content-Type")) // SSEHandler calls mime.ParseMediaType directly: same function
+		meth := map[string]string{"GET": "G", "POST": "P", "DELETE": "D"}[req.Method]
+		if meth == "" {
+			meth = "O"
+		}
+		infos := srv.receivingMethodInfos()
+		if c.kind == "sse" {
+			infos = serverMethodInfos
+			if msg, err := jsonrpc2.DecodeMessage(delivered); err != nil {
+				bodyTok = "bM"
 			} else {
-				bodyTok = "bS " + strings.Join(parts, " ")
+				bodyTok = "bS " + pfDescribeMsg(msg, infos, srv)
+			}
+		} else {
+			msgs, isBatch, err := readBatch(delivered)
+			switch {
+			case err != nil:
+				bodyTok = "bM"
+			default:
+				var parts []string
+				for _, m := range msgs {
+					parts = append(parts, pfDescribeMsg(m, infos, srv))
+				}
+				if isBatch {
+					bodyTok = "bB " + strings.Join(parts, " ")
+				} else {
+					bodyTok = "bS " + strings.Join(parts, " ")
+				}
 			}
 		}
+		sess := "n"
+		if c.kind == "sse" {
+			sess = c.sess
+		} else if id := req.Header.Get(sessionIDHeader); id != "" {
+			sess = "u"
+			if id == sessionID && c.sess == "k" {
+				sess = "k"
+			}
+		}
+		paramTok = pfParamHdrTok(req.Header)
+		return strings.Join([]string{"http", "K" + c.kind, "pd" + pfB01(c.disabled), "la" + pfB01(hasLocal), "ll" + pfB01(listenerLoop), "hl" + pfB01(hostLoop),
+			"or" + pfB01(originRejects), "M" + meth, "ct" + hxs(media), pfAcceptTok(req.Header.Values("Accept")), "pv" + hxs(req.Header.Get(protocolVersionHeader)), "ss" + sess, "ns" + pfB01(c.noSID),
+			"le" + pfB01(len(req.Header.Values(lastEventIDHeader)) > 0),
+			"lim" + strconv.FormatInt(c.limit, 10), "len" + strconv.Itoa(len(delivered)), "dl" + strconv.FormatInt(req.ContentLength, 10), "rf" + pfB01(readFails),
+			"mm" + hxs(req.Header.Get(methodHeader)), "mn" + hxs(req.Header.Get(nameHeader)), paramTok, bodyTok}, " ")
 	}
-	mm, mn := "", ""
-	if c.mcpMethod != nil {
-		mm = *c.mcpMethod
-	}
-	if c.mcpName != nil {
-		mn = *c.mcpName
-	}
-	op = strings.Join([]string{"http", "K" + c.kind, "pd" + pfB01(c.disabled), "la" + pfB01(c.localAddr != ""), "ll" + pfB01(listenerLoop), "hl" + pfB01(hostLoop),
-		"or" + pfB01(originRejects), "M" + meth, "ct" + hxs(media), pfAcceptTok(req.Header.Values("Accept")), "pv" + hxs(c.version), "ss" + c.sess, "le" + pfB01(c.lastEvent),
-		"lim" + strconv.FormatInt(c.limit, 10), "len" + strconv.Itoa(len(c.body)), "mm" + hxs(mm), "mn" + hxs(mn), pfParamHdrTok(req.Header), bodyTok}, " ")
 
 	// ---- run
 	rec := httptest.NewRecorder()
 	finished := true
 	panicked := false
-	func() {
-		done := make(chan struct{})
-		go func() {
-			defer close(done)
-			defer func() {
-				if r := recover(); r != nil {
-					panicked = true
-				}
-			}()
-			handler.ServeHTTP(rec, req)
+	wired := false
+	if c.wire && c.method != "GET" { // (a GET that passes the gates is a stream that stays open)
+		// a real loopback socket: net/http's server parses the request (Content-Length / chunked framing, header
+		// trimming) and calls the handler; the abstract request is taken from what the server hands over
+		var wop string
+		var wmu sync.Mutex
+		wurl, unregister := pfWireRegister(http.HandlerFunc(func(w http.ResponseWriter, r *http.Request) {
+			wmu.Lock()
+			wop = abstract(r)
+			wmu.Unlock()
+			handler.ServeHTTP(w, r)
+		}))
+		func() {
+			defer unregister()
+			wreq, err := http.NewRequest(c.method, wurl, newBody())
+			if err != nil {
+				return
+			}
+			setHeaders(wreq)
+			resp, err := pfWireClient.Do(wreq)
+			if err != nil {
+				return
+			}
+			data, err := io.ReadAll(resp.Body)
+			resp.Body.Close()
+			wmu.Lock()
+			defer wmu.Unlock()
+			if err != nil || wop == "" {
+				return
+			}
+			op = wop
+			rec = &httptest.ResponseRecorder{Code: resp.StatusCode, HeaderMap: resp.Header, Body: bytes.NewBuffer(data)}
+			wired = true
 		}()
-		select {
-		case <-done:
-		case <-time.After(10 * time.Second):
-			finished = false
+		if !wired {
+			// the request could not be put on the wire (a header value net/http refuses to send, a Host the server
+			// rejects by itself, ...) or the connection broke: observe the same case in-process instead
+			if teardown != nil {
+				teardown()
+			}
+			c.wire = false
+			return c.run()
 		}
-	}()
+	} else {
+		req := httptest.NewRequest(c.method, url, newBody())
+		if c.bodyMode == "ab" && c.abortDecl {
+			req.ContentLength = int64(len(c.body)) // fewer bytes arrive than were declared
+		}
+		ctx := baseCtx
+		if c.method == "GET" {
+			cctx, cancel := context.WithCancel(ctx)
+			cancel() // a GET that passes the gates hangs until the client goes away: it is gone already
+			ctx = cctx
+		}
+		req = req.WithContext(ctx)
+		setHeaders(req)
+		op = abstract(req)
+		func() {
+			done := make(chan struct{})
+			go func() {
+				defer close(done)
+				defer func() {
+					if r := recover(); r != nil {
+						panicked = true
+					}
+				}()
+				handler.ServeHTTP(rec, req)
+			}()
+			select {
+			case <-done:
+			case <-time.After(10 * time.Second):
+				finished = false
+			}
+		}()
+	}
 	if teardown != nil {
 		teardown()
 	}
@@ -1636,7 +1878,13 @@ func (c *pfHTTPCase) run() (op, obs string, tags []string) {
 		}
 		obs = fmt.Sprintf("S=%d E=%s A=%s R=%d H=%d D=%d", rec.Code, code, allow, cnt.mw.Load()-mw0, cnt.h.Load()-h0, d)
 	}
-	tags = []string{"http-" + c.kind, fmt.Sprintf("http-%s-%d", c.kind, rec.Code), c.sizeClass, "body-" + strings.Fields(bodyTok)[0][1:], fmt.Sprintf("ph%d", strings.Count(pfParamHdrTok(req.Header), "="))}
+	tags = []string{"http-" + c.kind, fmt.Sprintf("http-%s-%d", c.kind, rec.Code), c.sizeClass, "body-" + strings.Fields(bodyTok)[0][1:], fmt.Sprintf("ph%d", strings.Count(paramTok, "=")), "bd-" + c.bodyMode, pfDepthTag(c.schema)}
+	if c.noSID {
+		tags = append(tags, "no-session-ids")
+	}
+	if wired {
+		tags = append(tags, "wire")
+	}
 	tags = append(tags, c.muts...)
 	if len(c.muts) == 0 {
 		tags = append(tags, "mut-none")
@@ -1740,7 +1988,7 @@ func (e *pfE2E) call(args *pfJ) (op, obs string, tags []string) {
 			obs = fmt.Sprintf("err:%s handler=%d", hxs(firstN(err.Error(), 60)), len(seen))
 		}
 	}
-	tags = []string{"e2e", "e2e-" + strings.SplitN(strings.Fields(obs)[0], ":", 2)[0]}
+	tags = []string{"e2e", "e2e-" + strings.SplitN(strings.Fields(obs)[0], ":", 2)[0], pfDepthTag(e.schema)}
 	return
 }
 
@@ -1780,10 +2028,17 @@ func pfRngFor(seed int64, kind string, idx int) *rand.Rand {
 }
 
 // pfRunCase generates and runs case (kind, seed, idx) and writes its record.
-func pfRunCase(t *testing.T, out *verifOut, kind string, seed int64, idx int, extraTag string) {
-	g := &pfGen{rng: pfRngFor(seed, kind, idx)}
+func pfAt(kind string, seed int64, idx, epoch int) string {
+	if epoch <= 1 {
+		return fmt.Sprintf("@%s:%d:%d", kind, seed, idx)
+	}
+	return fmt.Sprintf("@%s:%d:%d:%d", kind, seed, idx, epoch)
+}
+
+func pfRunCase(t *testing.T, out *verifOut, kind string, seed int64, idx int, epoch int, extraTag string) {
+	g := &pfGen{rng: pfRngFor(seed, kind, idx), epoch: epoch}
 	cs := fmt.Sprintf("%s%d", kind, idx)
-	at := fmt.Sprintf("@%s:%d:%d", kind, seed, idx)
+	at := pfAt(kind, seed, idx, epoch)
 	var op, obs string
 	var tags []string
 	switch kind {
@@ -1825,12 +2080,16 @@ func pfReplay(t *testing.T, out *verifOut, path, tag string) {
 		}
 		done[f[0]] = true
 		p := strings.Split(f[0][1:], ":")
-		if len(p) != 3 {
+		if len(p) != 3 && len(p) != 4 {
 			continue
 		}
 		seed, _ := strconv.ParseInt(p[1], 10, 64)
 		idx, _ := strconv.Atoi(p[2])
-		pfRunCase(t, out, p[0], seed, idx, tag)
+		epoch := 1
+		if len(p) == 4 {
+			epoch, _ = strconv.Atoi(p[3])
+		}
+		pfRunCase(t, out, p[0], seed, idx, epoch, tag)
 	}
 }
 
@@ -1878,7 +2137,7 @@ func TestVerifPreflight(t *testing.T) {
 				go func(w int) {
 					defer wg.Done()
 					for i := w; i < n; i += workers {
-						g := &pfGen{rng: pfRngFor(seed, "http", i)}
+						g := &pfGen{rng: pfRngFor(seed, "http", i), epoch: pfEpoch}
 						c := g.httpCase()
 						op, obs, tags := c.run()
 						res[i] = rec{op, obs, tags}
@@ -1887,12 +2146,12 @@ func TestVerifPreflight(t *testing.T) {
 			}
 			wg.Wait()
 			for i, r := range res {
-				out.line(fmt.Sprintf("http%d", i), fmt.Sprintf("@http:%d:%d %s", seed, i, r.op), r.obs, r.tags...)
+				out.line(fmt.Sprintf("http%d", i), pfAt("http", seed, i, pfEpoch)+" "+r.op, r.obs, r.tags...)
 			}
 			continue
 		}
 		for i := 0; i < n; i++ {
-			pfRunCase(t, out, kind, seed, i, "")
+			pfRunCase(t, out, kind, seed, i, pfEpoch, "")
 		}
 	}
 }
